@@ -8,7 +8,7 @@
 //!         rwall | rwsel | rwnone    HtmlRewriter with `*` element+comment+text handlers / nesting
 //!                                   selectors / no handlers (all handlers leave the content alone)
 //!   cuts: chunk boundaries (`-` = one chunk)
-//! output = `kind n=<len> k=<chunks> | M=<M>:<res>:ret=<max retained>:use=<max usage|->:out=<bytes out> …`
+//! output = `kind n=<len> k=<chunks> | M=<M>:<res>:ret=<max retained>:use=<max usage|->:heap=<max live heap growth>:out=<bytes out> …`
 //!   res: ok | mem@<call> | other@<call> | PANIC-new | panic@<call>   (call k = `end`)
 //! oracle (appended as ` ||ORACLE:C10:<site> …`, first violation only):
 //!   F5-prealloc-exceeds-max   constructor panics (debug_assert) because prealloc > M
@@ -18,9 +18,15 @@
 //!                             text decoder of a text-capturing configuration and never charged)
 //!   usage-exceeds-max         accounted usage > M after a successful call (prealloc ≤ M)
 //!   usage-below-retained      accounted usage < retained bytes after a successful write
+//!   heap-growth-exceeds-max   after a successful write the live heap (counting allocator) has grown by
+//!                             more than M + 16 KiB since the rewriter was constructed: memory that
+//!                             depends on the input and is not charged to the limiter
+//!   heap-growth-without-retained-input   same, and the growth is more than 64 × the retained input
+//!                             (memory kept for open elements, not for buffered input)
 //!   panic                     a call panicked (other than F5)
 //!   not-monotone              a larger limit stops earlier / differently than a smaller one
 //!   output-differs            two fully successful runs produced different output
+//!   not-deterministic         the same case run twice stopped differently / produced different output
 use crate::util::*;
 use lol_html::errors::RewritingError;
 use lol_html::html_content::DocumentEnd;
@@ -29,9 +35,45 @@ use lol_html::{
     SharedMemoryLimiter, StartTagHandlingResult, Token, TokenCaptureFlags, TransformController,
     TransformStream, TransformStreamSettings, comments, doc_comments, doc_text, element, text,
 };
+use std::alloc::{GlobalAlloc, Layout, System};
 use std::cell::RefCell;
 use std::panic::{AssertUnwindSafe, catch_unwind};
 use std::rc::Rc;
+use std::sync::atomic::{AtomicUsize, Ordering};
+
+/// Pass-through allocator that counts live heap bytes, so that the lane can compare what the
+/// rewriter really holds with what it accounts for (the harness is single-threaded).
+struct CountingAlloc;
+static LIVE: AtomicUsize = AtomicUsize::new(0);
+
+unsafe impl GlobalAlloc for CountingAlloc {
+    unsafe fn alloc(&self, l: Layout) -> *mut u8 {
+        let p = unsafe { System.alloc(l) };
+        if !p.is_null() {
+            LIVE.fetch_add(l.size(), Ordering::Relaxed);
+        }
+        p
+    }
+    unsafe fn dealloc(&self, p: *mut u8, l: Layout) {
+        unsafe { System.dealloc(p, l) };
+        LIVE.fetch_sub(l.size(), Ordering::Relaxed);
+    }
+    unsafe fn realloc(&self, p: *mut u8, l: Layout, new_size: usize) -> *mut u8 {
+        let q = unsafe { System.realloc(p, l, new_size) };
+        if !q.is_null() {
+            LIVE.fetch_sub(l.size(), Ordering::Relaxed);
+            LIVE.fetch_add(new_size, Ordering::Relaxed);
+        }
+        q
+    }
+}
+
+#[global_allocator]
+static ALLOC: CountingAlloc = CountingAlloc;
+
+/// Allowance for the rewriter's lazily allocated fixed-size scratch buffers when comparing the
+/// live heap growth with the limit.
+const HEAP_SLACK: usize = 16 * 1024;
 
 pub(crate) struct PassThrough(pub(crate) TokenCaptureFlags);
 
@@ -89,6 +131,8 @@ struct RunResult {
     stop: Stop,
     max_retained: usize,
     max_usage: Option<usize>,
+    /// largest growth of the live heap since construction, measured after successful writes
+    max_heap: usize,
     out: Vec<u8>,
     violation: Option<String>,
 }
@@ -191,12 +235,15 @@ fn incomplete_utf8_suffix(b: &[u8]) -> usize {
 }
 
 fn run_one(kind: &str, max: usize, prealloc: usize, chunks: &[&[u8]]) -> Option<RunResult> {
-    let out = Rc::new(RefCell::new(Vec::<u8>::new()));
+    let total: usize = chunks.iter().map(|c| c.len()).sum();
+    // everything the harness itself will need is allocated before the baseline is taken
+    let out = Rc::new(RefCell::new(Vec::<u8>::with_capacity(2 * total + 64)));
     let made = catch_unwind(AssertUnwindSafe(|| make_driver(kind, max, prealloc, out.clone())));
     let mut res = RunResult {
         stop: Stop::Ok,
         max_retained: 0,
         max_usage: None,
+        max_heap: 0,
         out: vec![],
         violation: None,
     };
@@ -215,7 +262,8 @@ fn run_one(kind: &str, max: usize, prealloc: usize, chunks: &[&[u8]]) -> Option<
     };
     let in_hyp = prealloc <= max;
     let mut bytes_in = 0usize;
-    let mut seen: Vec<u8> = vec![];
+    let mut seen: Vec<u8> = Vec::with_capacity(total);
+    let heap_base = LIVE.load(Ordering::Relaxed);
     let note_usage = |res: &mut RunResult, call: usize| {
         if let Some(l) = &limiter {
             let u = l.verif_current_usage();
@@ -261,6 +309,21 @@ fn run_one(kind: &str, max: usize, prealloc: usize, chunks: &[&[u8]]) -> Option<
                         "{site} write#{i} in={bytes_in} out={} max={max} usage={}",
                         out.borrow().len(),
                         limiter.as_ref().map_or("-".to_string(), |l| l.verif_current_usage().to_string())
+                    ));
+                }
+                let heap = LIVE.load(Ordering::Relaxed).saturating_sub(heap_base);
+                res.max_heap = res.max_heap.max(heap);
+                if in_hyp && heap > max.saturating_add(HEAP_SLACK) && res.violation.is_none() {
+                    // growth that the buffered input cannot explain (e.g. owned element names in
+                    // the open-element stack) vs. growth proportional to the buffered input
+                    // (e.g. the lexer's attribute outlines of an unterminated tag)
+                    let site = if heap > retained.saturating_mul(64).saturating_add(HEAP_SLACK) {
+                        "heap-growth-without-retained-input"
+                    } else {
+                        "heap-growth-exceeds-max"
+                    };
+                    res.violation = Some(format!(
+                        "{site} write#{i} live heap grew by {heap} bytes since construction, max={max}, retained input={retained}"
                     ));
                 }
                 if let Some(u) = note_usage(&mut res, i) {
@@ -314,15 +377,27 @@ pub fn run(line: &str) -> String {
         let Some(r) = run_one(kind, m, prealloc, &chunks) else {
             return "bad-case".into();
         };
+        // determinism: the same configuration and writes give the same results and output
+        if let Some(r2) = run_one(kind, m, prealloc, &chunks) {
+            if (r2.stop != r.stop || r2.out != r.out || r2.max_usage != r.max_usage)
+                && oracle.as_ref().is_none_or(|o| o.starts_with("F5-"))
+            {
+                oracle = Some(format!("not-deterministic M={m}: {} vs {}", r.stop.show(), r2.stop.show()));
+            }
+        }
         s.push_str(&format!(
-            " M={m}:{}:ret={}:use={}:out={}",
+            " M={m}:{}:ret={}:use={}:heap={}:out={}",
             r.stop.show(),
             r.max_retained,
             r.max_usage.map_or("-".to_string(), |u| u.to_string()),
+            r.max_heap,
             r.out.len()
         ));
-        if oracle.is_none() {
-            oracle = r.violation.clone();
+        // a finding other than the known F5 takes precedence in the (single) oracle slot
+        match (&oracle, &r.violation) {
+            (None, Some(v)) => oracle = Some(v.clone()),
+            (Some(o), Some(v)) if o.starts_with("F5-") && !v.starts_with("F5-") => oracle = Some(v.clone()),
+            _ => {}
         }
         if r.stop == Stop::PanicNew {
             // outside the hypothesis prealloc <= M: not part of the monotonicity check
@@ -334,14 +409,18 @@ pub fn run(line: &str) -> String {
                 Stop::Ok | Stop::Other(_) | Stop::Panic(_) => r.stop != p.stop,
                 _ => r.stop.progress(ncalls) < p.stop.progress(ncalls),
             };
-            if bad && oracle.is_none() {
+            if bad && oracle.as_ref().is_none_or(|o| o.starts_with("F5-")) {
                 oracle = Some(format!(
                     "not-monotone M={pm}:{} but M={m}:{}",
                     p.stop.show(),
                     r.stop.show()
                 ));
             }
-            if p.stop == Stop::Ok && r.stop == Stop::Ok && p.out != r.out && oracle.is_none() {
+            if p.stop == Stop::Ok
+                && r.stop == Stop::Ok
+                && p.out != r.out
+                && oracle.as_ref().is_none_or(|o| o.starts_with("F5-"))
+            {
                 oracle = Some(format!("output-differs M={pm} vs M={m}"));
             }
         }
